@@ -206,6 +206,42 @@ fn gen_query(rng: &mut StdRng, ns: i64) -> J {
     q
 }
 
+/// a triple template for DELETE { } / INSERT { }: positions are constants or variables of the WHERE group whose kind fits the position
+fn gen_template(g: &mut Gen) -> J {
+    let pick = |g: &mut Gen, kind: u8, pool: Vec<i64>| -> J {
+        let same: Vec<String> = g.vars.iter().filter(|(_, k)| *k == kind).map(|(n, _)| n.clone()).collect();
+        if !same.is_empty() && g.rng.random_bool(0.75) { json!({"v": same[g.rng.random_range(0..same.len())]}) } else { json!({"c": pool[g.rng.random_range(0..pool.len())]}) }
+    };
+    let ns = g.ns;
+    let s = pick(g, 0, (1..=ns).collect());
+    let p = g.rng.random_range(11..=13i64);
+    let o = match p { 11 => pick(g, 0, (1..=ns).collect()), 12 => pick(g, 1, vec![21, 22]), _ => pick(g, 2, vec![31, 32, 33]) };
+    json!({"s": s, "p": {"c": p}, "o": o})
+}
+fn tmpl_text(ts: &[J]) -> String { ts.iter().map(|t| format!("{} {} {}", t_text(&t["s"]), t_text(&t["p"]), t_text(&t["o"]))).collect::<Vec<_>>().join(" . ") }
+/// DELETE { templates } INSERT { templates } WHERE group (either template list may be empty, not both)
+fn gen_update(rng: &mut StdRng, ns: i64) -> (J, String) {
+    let mut g = Gen { rng, ns, vars: vec![] };
+    let w = g.group(0);
+    let nd = g.rng.random_range(0..=2usize);
+    let ni = if nd == 0 { g.rng.random_range(1..=2usize) } else { g.rng.random_range(0..=2usize) };
+    let del: Vec<J> = (0..nd).map(|_| gen_template(&mut g)).collect();
+    let ins: Vec<J> = (0..ni).map(|_| gen_template(&mut g)).collect();
+    let mut text = String::new();
+    if !del.is_empty() { text += &format!("DELETE {{ {} }} ", tmpl_text(&del)); }
+    if !ins.is_empty() { text += &format!("INSERT {{ {} }} ", tmpl_text(&ins)); }
+    text += &format!("WHERE {}", group_text(&w));
+    (json!({"del": del, "ins": ins, "where": w}), text)
+}
+/// DELETE WHERE { tp . tp }: the patterns are the templates
+fn gen_delwhere(rng: &mut StdRng, ns: i64) -> (J, String) {
+    let mut g = Gen { rng, ns, vars: vec![] };
+    let n = g.rng.random_range(1..=2usize);
+    let tps: Vec<J> = (0..n).map(|_| g.tp()).collect();
+    let text = format!("DELETE WHERE {}", group_text(&json!(tps)));
+    (json!(tps), text)
+}
+
 fn rand_triples(rng: &mut StdRng, ns: i64, n: usize) -> Vec<[i64; 3]> {
     (0..n).map(|_| { let p = rng.random_range(11..=13i64); [rng.random_range(1..=ns), p, match p { 11 => rng.random_range(1..=ns), 12 => rng.random_range(21..=22), _ => rng.random_range(31..=33) }] }).collect()
 }
@@ -224,15 +260,26 @@ pub fn main(o: &Opts) -> i32 {
             let c = rng.random_range(0..100);
             let mut ev;
             let text;
-            if c < 22 {
+            if c < 20 {
                 let k = rng.random_range(1..=4); let ts = rand_triples(&mut rng, ns, k);
                 text = data_text("INSERT", &ts);
                 ev = json!({"a": "insert", "ts": ts});
-            } else if c < 32 {
+            } else if c < 27 {
                 let k = rng.random_range(1..=2); let ts = rand_triples(&mut rng, ns, k);
                 text = data_text("DELETE", &ts);
                 ev = json!({"a": "delete", "ts": ts});
-            } else if c < 40 {
+            } else if c < 35 {
+                let (u, t) = gen_update(&mut rng, ns);
+                text = t;
+                ev = json!({"a": "update", "u": u});
+            } else if c < 38 {
+                let (tps, t) = gen_delwhere(&mut rng, ns);
+                text = t;
+                ev = json!({"a": "delwhere", "tps": tps});
+            } else if c < 39 {
+                text = "CLEAR DEFAULT".to_string();
+                ev = json!({"a": "clear"});
+            } else if c < 44 {
                 text = "SELECT ?s ?p ?o WHERE { ?s ?p ?o }".to_string();
                 ev = json!({"a": "dump"});
             } else {
@@ -254,6 +301,17 @@ pub fn main(o: &Opts) -> i32 {
                 Err(p) => { ev["panic"] = json!(true); ev["err"] = json!(false); ev["rows"] = json!([]); ev["info"] = json!(p.chars().take(200).collect::<String>()); }
             }
             out.emit(&ev);
+            if matches!(ev["a"].as_str(), Some("update" | "delwhere" | "clear")) {
+                // the whole data set is read back after every pattern update
+                let text = "SELECT ?s ?p ?o WHERE { ?s ?p ?o }";
+                let mut d = json!({"a": "dump", "text": text, "panic": false, "err": false});
+                match catch(AssertUnwindSafe(|| s.execute_sparql(text))) {
+                    Ok(Ok(r)) => { d["rows"] = json!(r.rows.iter().map(|row| row.iter().map(decode).collect::<Vec<_>>()).collect::<Vec<_>>()); }
+                    Ok(Err(_)) => { d["err"] = json!(true); d["rows"] = json!([]); }
+                    Err(_) => { d["panic"] = json!(true); d["rows"] = json!([]); }
+                }
+                out.emit(&d);
+            }
         }
     }
     let n = out.n;
